@@ -31,6 +31,9 @@ def main(tier, seed):
     bins = [("dev", vlib.build_harness("dev")), ("release", vlib.build_harness("release"))]
     profcheck.run_scenarios(rep, "capture", scenarios.capture_scenarios(), bins, PROP)
     profcheck.run_scenarios(rep, "captureorder", scenarios.capture_order_scenarios(), bins, PROP)
+    # ... and across fiber switches: the declaring scope yields / calls a function that yields / calls another fiber while closures over
+    # its variables exist; direct and closure accesses keep seeing one variable, in the suspended fiber and from the fiber that resumed it
+    profcheck.run_scenarios(rep, "captureswitch", scenarios.capture_across_switch_scenarios(), bins, PROP)
     # which closures outlive the capturing scope (any subset, captured in any order): output and the surviving objects
     profcheck.run_scenarios(rep, "retention", scenarios.closure_retention_scenarios(), bins, PROP)
     # a function capturing as many variables as the encoding allows (255 / 256 / 257, through two enclosing levels and relayed by an
